@@ -152,7 +152,7 @@ def run_case(case, R):
                 R.state(("text", lab))
                 fmts = ["%.18e", "%.6e", "%g"] + (["%d"] if kind == "int" else [])
                 combos = list(itertools.product(fmts, [" ", ","], [None, "user text"], ["# ", "% "],
-                                                ["stringio", "path", "pathlib", "bytesio", "stringio@offset", "bytesio@offset"], ["numpoly", "numpy"]))
+                                                ["stringio", "path", "pathlib", "bytesio", "stringio@offset", "bytesio@offset"], ["numpoly", "numpy", "numpoly-kw", "numpy-kw"]))
                 # every option value with every other pairwise is overkill per input: full product on the first input
                 # of the block, the diagonal slices on the others (still every value of every option per input)
                 if case.get("tier") != "thorough" and (case["i0"] + inputs.index((shape, names, kind, label, var, sp))) % 6:
@@ -164,7 +164,10 @@ def run_case(case, R):
                     kw = {"fmt": fmt, "delimiter": delim, "comments": comments}
                     if header is not None:
                         kw["header"] = header
-                    save = numpoly.savetxt if spelling == "numpoly" else numpy.savetxt
+                    save_ = numpoly.savetxt if spelling.startswith("numpoly") else numpy.savetxt
+                    # "-kw": every argument by keyword (fname=..., X=...), also for the loader
+                    save = save_ if not spelling.endswith("-kw") else (lambda f_, x_, **k_: save_(fname=f_, X=x_, **k_))
+                    load = numpoly.loadtxt if not spelling.endswith("-kw") else (lambda f_, **k_: numpoly.loadtxt(fname=f_, **k_))
                     try:
                         if target in ("stringio", "bytesio"):
                             f = io.StringIO() if target == "stringio" else io.BytesIO()
@@ -183,7 +186,7 @@ def run_case(case, R):
                             path = os.path.join(scratch, "p.txt")
                             save(path if target == "path" else pathlib.Path(path), p, **kw)
                             src = path if target == "path" else pathlib.Path(path)
-                        q = numpoly.loadtxt(src, comments=comments, delimiter=None if delim == " " else delim,
+                        q = load(src, comments=comments, delimiter=None if delim == " " else delim,
                                             skiprows=1 if header is not None else 0)
                     except Exception as err:  # noqa: BLE001
                         R.fail("savetxt/loadtxt", "exception", f"{lab} {kw} {target} {spelling}: {type(err).__name__}: {err}", tags=tags)
